@@ -40,6 +40,7 @@ type Op struct {
 	X     uint64      `json:"x,omitempty"`
 	Y     uint64      `json:"y,omitempty"`
 	Seed  uint64      `json:"seed,omitempty"`
+	Rl    bool        `json:"rl,omitempty"` // the key is relative to the current length (resolved when the op runs)
 }
 
 type Case struct {
@@ -136,10 +137,7 @@ var H = {
   has: function (a, op) { return op.k in a; },
   freeze: function (a) { Object.freeze(a); }, seal: function (a) { Object.seal(a); }, prevent: function (a) { Object.preventExtensions(a); },
   proto: function (a, op, P) {
-    // always delete first: a redefinition that converts the kind would leave stale valueProperty fields on the
-    // prototype object itself (findings N1-N3 on an ordinary object: C04's territory)
-    delete P[op.k];
-    if (op.f === 99) return;
+    if (op.f === 99) { delete P[op.k]; return; }
     var d = { enumerable: !!(op.f & 2), configurable: true };
     if (op.f < 8) { d.value = op.x === 0 ? undefined : op.x; d.writable = !!(op.f & 4); }
     else { d.get = op.x === 0 ? undefined : G[op.x - 1]; d.set = op.y === 0 ? undefined : S[op.y - 1]; }
@@ -639,23 +637,17 @@ func runCase(c Case) vh.Record {
 	nontrivial := false
 	sawSortRand := false
 	for i, op := range c.Ops {
+		if op.Rl {
+			op.K += uint64(normal.length())
+			op.Rl = false
+			tags["relative-key"] = true
+		}
 		if op.O == "deflen" && op.D != nil && (op.D.G != nil || op.D.S != nil) && (op.L != nil || op.D.W != nil) {
 			// ToPropertyDescriptor rejects a descriptor with both kinds of fields before the object is reached
 			op.D = &Desc{G: op.D.G, S: op.D.S, E: op.D.E, C: op.D.C}
 			op.L = nil
 		}
-		if c.Kind == 1 && op.O == "def" && op.D != nil && (op.D.G != nil || op.D.S != nil) {
-			// accessors on plain objects (and the kind conversions of _defineOwnProperty) belong to C04
-			continue
-		}
 		if c.Kind == 1 && (op.O == "deflen" || op.O == "export" || op.O == "concat" || op.O == "concatv" || (op.O == "setlen" && op.Inv)) {
-			continue
-		}
-		if (op.O == "del" && normal.length() > maxLoopLen && normal.nonconf(op.K)) ||
-			(op.O == "pop" && normal.length() > maxLoopLen && normal.nonconf(uint64(normal.length()-1))) {
-			// a failing delete (any surface) formats its message with ToString(array) first: a join over the whole
-			// length (finding N8) which does not terminate in reasonable time on long arrays
-			tags["skipped-failing-delete-on-long-array"] = true
 			continue
 		}
 		if loopingOps[op.O] && normal.length() > maxLoopLen {
@@ -971,6 +963,95 @@ func genOp(r *vh.Rng, curLen int, allowSortRand bool) Op {
 }
 
 func genCase(r *vh.Rng) Case {
+	switch r.Pick(78, 12, 10) {
+	case 1:
+		return genSortCase(r)
+	case 2:
+		return genSwitchCase(r)
+	}
+	return genPlainCase(r, nil)
+}
+
+// genSortCase: 13..30 elements with tied keys (v mod 8) and distinguishable payloads, sorted repeatedly with the
+// tie-making comparators on every receiver kind (dense fast path, sparse twin, accessor element, array-like)
+func genSortCase(r *vh.Rng) Case {
+	c := Case{}
+	n0 := 13 + r.Intn(18)
+	perm := make([]uint64, n0)
+	for i := range perm {
+		perm[i] = uint64(i + 1)
+	}
+	for i := n0 - 1; i > 0; i-- {
+		j := r.Intn(i + 1)
+		perm[i], perm[j] = perm[j], perm[i]
+	}
+	for i := 0; i < n0; i++ {
+		switch {
+		case r.Chance(4):
+			c.Init = append(c.Init, nil)
+		case r.Chance(4):
+			c.Init = append(c.Init, u(0))
+		default:
+			c.Init = append(c.Init, u(perm[i]))
+		}
+	}
+	if r.Chance(30) { // an element with non-default attributes forces the generic path on an Array too
+		c.Ops = append(c.Ops, Op{O: "def", K: uint64(r.Intn(n0)), D: &Desc{E: bp(r.Chance(50))}})
+	}
+	for i, n := 0, 2+r.Intn(5); i < n; i++ {
+		switch r.Pick(45, 20, 10, 10, 8, 7) {
+		case 0:
+			c.Ops = append(c.Ops, Op{O: "sort", Ck: 2})
+		case 1:
+			c.Ops = append(c.Ops, Op{O: "sort", Ck: 4})
+		case 2:
+			c.Ops = append(c.Ops, Op{O: "sort", Ck: r.Intn(4)})
+		case 3:
+			c.Ops = append(c.Ops, Op{O: "reverse"})
+		case 4:
+			c.Ops = append(c.Ops, Op{O: "push", Vs: []uint64{uint64(40 + r.Intn(40)), uint64(40 + r.Intn(40))}})
+		case 5:
+			c.Ops = append(c.Ops, Op{O: "copyWithin", T: int64(r.Intn(n0)), St: int64(r.Intn(n0))})
+		}
+	}
+	c.Ops = append(c.Ops, Op{O: "sort", Ck: 2})
+	for i, n := 0, 1+r.Intn(2); i < n; i++ {
+		c.Twin = append(c.Twin, r.Intn(len(c.Ops)))
+	}
+	return c
+}
+
+// genSwitchCase: elements with attributes (non-configurable / accessor / non-writable) defined while the array is
+// dense, then a plain far write that switches the storage, then the length shrinks; the rest is random
+func genSwitchCase(r *vh.Rng) Case {
+	var pre []Op
+	for i, n := 0, 1+r.Intn(3); i < n; i++ {
+		d := &Desc{}
+		switch r.Pick(50, 25, 25) {
+		case 0:
+			d.V, d.C = u(genVal(r)), bp(false)
+			if r.Chance(50) {
+				d.W = bp(r.Chance(50))
+			}
+		case 1:
+			d.G = ip(r.Intn(3))
+			d.C = bp(r.Chance(50))
+		case 2:
+			d.V, d.W, d.C = u(genVal(r)), bp(false), bp(true)
+		}
+		pre = append(pre, Op{O: "def", R: r.Chance(30), K: uint64(r.Intn(12)), D: d})
+	}
+	far := []uint64{4097, 4098, 5000, 65535, 65536}[r.Intn(5)]
+	pre = append(pre, Op{O: "set", K: far, V: genVal(r)})
+	if r.Chance(50) {
+		pre = append(pre, Op{O: "del", K: far})
+	}
+	pre = append(pre, Op{O: "setlen", R: r.Chance(40), K: uint64(r.Intn(13))})
+	pre = append(pre, Op{O: "get", K: uint64(r.Intn(12))})
+	return genPlainCase(r, pre)
+}
+
+func genPlainCase(r *vh.Rng, pre []Op) Case {
 	c := Case{}
 	n0 := r.Intn(9)
 	if r.Chance(15) {
@@ -986,11 +1067,13 @@ func genCase(r *vh.Rng) Case {
 	if c.Init == nil {
 		c.Init = []*uint64{}
 	}
-	nOps := 1 + r.Intn(30)
+	c.Ops = append(c.Ops, pre...)
+	nOps := 1 + r.Intn(30-len(pre))
 	// the current length is tracked approximately (only to bias the generator)
 	cur := n0
 	for i := 0; i < nOps; i++ {
 		op := genOp(r, cur, true)
+		shrinks := false
 		switch op.O {
 		case "push":
 			cur += len(op.Vs)
@@ -998,8 +1081,12 @@ func genCase(r *vh.Rng) Case {
 			if cur > 0 {
 				cur--
 			}
+			shrinks = true
+		case "splice":
+			shrinks = true
 		case "setlen":
 			if !op.Inv && op.K < 64 {
+				shrinks = int(op.K) < cur
 				cur = int(op.K)
 			}
 		case "set", "def":
@@ -1008,9 +1095,24 @@ func genCase(r *vh.Rng) Case {
 			}
 		}
 		c.Ops = append(c.Ops, op)
+		if shrinks && r.Chance(35) {
+			// a write that leaves a gap above the new length (within the old capacity), then the gap is read
+			c.Ops = append(c.Ops, Op{O: "set", Rl: true, K: uint64(1 + r.Intn(3)), V: genVal(r)})
+			switch r.Pick(30, 30, 25, 15) {
+			case 0:
+				c.Ops = append(c.Ops, Op{O: "slice", St: -5})
+			case 1:
+				c.Ops = append(c.Ops, Op{O: "includes", V: 0})
+			case 2:
+				c.Ops = append(c.Ops, Op{O: "export"})
+			case 3:
+				c.Ops = append(c.Ops, Op{O: "indexOf", V: genVal(r)})
+			}
+			i += 2
+		}
 	}
 	for i, n := 0, 1+r.Intn(3); i < n; i++ {
-		c.Twin = append(c.Twin, r.Intn(nOps))
+		c.Twin = append(c.Twin, r.Intn(len(c.Ops)))
 	}
 	return c
 }
